@@ -41,6 +41,7 @@
 #include "state.h"
 #include "status.h"
 #include "util.h"
+#include "verif_hooks.h"
 
 using namespace std;
 
@@ -661,6 +662,7 @@ void Builder::Cleanup() {
           status_->Error("%s", err.c_str());
         if (!depfile.empty() || (*o)->mtime() != new_mtime)
           disk_interface_->RemoveFile((*o)->path());
+        VERIF_CRASH_POINT("cleanup-between-output-removals");
       }
       if (!depfile.empty())
         disk_interface_->RemoveFile(depfile);
@@ -668,6 +670,7 @@ void Builder::Cleanup() {
   }
 
   string err;
+  VERIF_CRASH_POINT("cleanup-before-lock-removal");
   if (disk_interface_->Stat(lock_file_path_, &err) > 0)
     disk_interface_->RemoveFile(lock_file_path_);
 }
@@ -894,6 +897,7 @@ bool Builder::StartEdge(Edge* edge, string* err) {
       build_start = disk_interface_->Stat(lock_file_path_, err);
       if (build_start == -1)
         build_start = 0;
+      VERIF_CRASH_POINT("start-after-lock");
     }
   }
 
@@ -912,6 +916,7 @@ bool Builder::StartEdge(Edge* edge, string* err) {
     string content = edge->GetBinding("rspfile_content");
     if (!disk_interface_->WriteFile(rspfile, content, true))
       return false;
+    VERIF_CRASH_POINT("start-after-rspfile");
   }
 
   // start command computing and run it
@@ -919,6 +924,7 @@ bool Builder::StartEdge(Edge* edge, string* err) {
     err->assign("command '" + edge->EvaluateCommand() + "' failed.");
     return false;
   }
+  VERIF_CRASH_POINT("start-after-spawn");
 
   return true;
 }
@@ -957,6 +963,7 @@ bool Builder::FinishCommand(BuildResult::CommandCompleted& result,
 
   status_->BuildEdgeFinished(edge, start_time_millis, end_time_millis,
                              result.status, result.output);
+  VERIF_CRASH_POINT("finish-after-status");
 
   // The rest of this function only applies to successful commands.
   if (!result.success()) {
@@ -999,13 +1006,16 @@ bool Builder::FinishCommand(BuildResult::CommandCompleted& result,
     }
   }
 
+  VERIF_CRASH_POINT("finish-after-restat");
   if (!plan_.EdgeFinished(edge, Plan::kEdgeSucceeded, err))
     return false;
+  VERIF_CRASH_POINT("finish-after-plan");
 
   // Delete any left over response file.
   string rspfile = edge->GetUnescapedRspfile();
   if (!rspfile.empty() && !g_keep_rsp)
     disk_interface_->RemoveFile(rspfile);
+  VERIF_CRASH_POINT("finish-after-rspfile-removal");
 
   if (scan_.build_log()) {
     if (!scan_.build_log()->RecordCommand(
@@ -1015,6 +1025,7 @@ bool Builder::FinishCommand(BuildResult::CommandCompleted& result,
       return false;
     }
   }
+  VERIF_CRASH_POINT("finish-after-buildlog");
 
   if (!deps_type.empty() && !config_.dry_run) {
     assert(!edge->outputs_.empty() && "should have been rejected by parser");
@@ -1027,8 +1038,10 @@ bool Builder::FinishCommand(BuildResult::CommandCompleted& result,
         *err = std::string("Error writing to deps log: ") + strerror(errno);
         return false;
       }
+      VERIF_CRASH_POINT("finish-between-depslog-records");
     }
   }
+  VERIF_CRASH_POINT("finish-return");
   return true;
 }
 
@@ -1083,6 +1096,7 @@ bool Builder::ExtractDeps(BuildResult::CommandCompleted& result,
       deps_nodes->push_back(state_->GetNode(*i, slash_bits));
     }
 
+    VERIF_CRASH_POINT("finish-before-depfile-removal");
     if (!g_keep_depfile) {
       if (disk_interface_->RemoveFile(depfile) < 0) {
         *err = string("deleting depfile: ") + strerror(errno) + string("\n");
